@@ -61,7 +61,7 @@ def gc_layer(ctx, drv):
     quick = ctx.quick
     design = "MCTrieGC_small.cfg" if quick else "MCTrieGC_big.cfg"
     emits = ["MCTrieGC_emit.cfg", "MCTrieGC_emitgc.cfg", "MCTrieGC_emitfl.cfg"] if quick else \
-            ["MCTrieGC_emit7.cfg", "MCTrieGC_emitgc10.cfg", "MCTrieGC_emitfl9.cfg"]
+            ["MCTrieGC_emit6.cfg", "MCTrieGC_emitgc10.cfg", "MCTrieGC_emitfl9.cfg"]
     leads = ["MCTrieGC_lead.cfg", "MCTrieGC_lead2.cfg"]
     jobs = [(design, 8)] + [(c, 2) for c in leads] + [(c, 6) for c in emits]
     with ThreadPoolExecutor(max_workers=len(jobs)) as ex:
